@@ -280,6 +280,8 @@ def judge(case, impl_res, ans):
             return 'CORR: model expects %s with %d rows, output has %s' % (name, e['dim'], have[name])
         if e['vals'] is not None and name in ok['arrays'] and ok['arrays'][name]['vals'] != e['vals']:
             return 'CORR: values of %s differ from the model (%s)' % (name, e['tag'])
+        if name in ok['arrays'] and e['tag'].startswith('u16:') and ok['arrays'][name]['dtype'] != 'uint16':
+            return 'CORR: %s has dtype %s, the model tag is %s' % (name, ok['arrays'][name]['dtype'], e['tag'])
     for name in have:
         if name.split('.')[0] in FAMILIES and name not in mout:
             return 'CORR: the real output holds the object file %s that the model does not write' % name
